@@ -496,4 +496,18 @@ example : (simulateAll sqliteEnv {} ⟨"a", "a", true⟩ [.renameModel "Book" "T
     deletedAcc "a" [] [.renameModel "Book" "Tome" "a_book", .deleteModel "Tome"] = ["a.Tome"] := by
   decide
 
+/-- the model's `RenameModel` re-points EVERY field of every model of every app whose reference names
+the renamed model, to `<app of the renamed model>.<new name>`; so does the source: three nested loops
+over all apps, models and fields, one test on the reference itself (not on the field's class), no
+early exit, both names built from the label of the app being evolved (read by the translator on every
+run) -/
+theorem C11_source_rename_model_walk : DEvo.Generated.renameModelRefWalk =
+    ["old_related_model = '%s.%s' % (simulation.app_label, self.old_model_name)",
+     "new_related_model = '%s.%s' % (simulation.app_label, self.new_model_name)",
+     "for cur_app_sig in simulation.project_sig.app_sigs",
+     "  for cur_model_sig in cur_app_sig.model_sigs",
+     "    for cur_field_sig in cur_model_sig.field_sigs",
+     "      if cur_field_sig.related_model == old_related_model",
+     "        cur_field_sig.related_model = new_related_model"] := by decide
+
 end DEvo.Props.C11
